@@ -1,13 +1,19 @@
 //! C18 — log and tracing interoperate without losing, inventing or mislabelling records
 //! (DESIGN.md 5/C18).
 //!
-//! Part A  (log -> tracing, child kind `rec`): a `LogTracer::new()` is driven directly through
-//!   `log::Log::{enabled, log}` with generated `log::Record`s (5 levels, arbitrary Unicode
-//!   target / message, file / line / module path present or absent) while a recording collector
-//!   with a level x target-set filter is the thread's default.  Oracle: `enabled` and the number
-//!   of events == [the current collector accepts (record level, record target)]; the event's
-//!   message == the record's text; `normalized_metadata()` target / level / file / line /
-//!   module path == the record's.
+//! Part A  (log -> tracing, child kind `rec`): generated `log::Record`s (5 levels, arbitrary
+//!   Unicode target / message, file / line / module path present or absent) enter the bridge by
+//!   both of its public doors — a `LogTracer::new()` driven directly through
+//!   `log::Log::{enabled, log}`, and `tracing_log::format_trace(&record)` (what the `env_logger`
+//!   helper calls) — while a recording collector with a level x target-set filter (a third of
+//!   them additionally rejecting a module-path / file prefix) is the thread's default.
+//!   Oracle: `enabled` and, for EACH door, the number of events == [the current collector
+//!   accepts (record level, record target)]; the event's message == the record's text;
+//!   `normalized_metadata()` target / level / file / line / module path == the record's.  Where
+//!   the collector accepts level and target but rejects the record's module path / file the
+//!   documentation is silent about which metadata it is asked with: there only "both doors
+//!   deliver the same number of events" and "no event after an `enabled` = false answer" are
+//!   demanded.
 //! Part A2 (child kind `ignore`): one `LogTracer::builder().ignore_crate(..).with_max_level(..)
 //!   .init()` configuration per process (the `log` logger is one-shot); records go through the
 //!   `log` macros / the global logger; a record whose target starts with an ignored string, or
@@ -113,6 +119,10 @@ struct Filt {
     tsel: TSel,
     /// `max_level_hint`: None or a true upper bound (>= thresh)
     hint: Option<usize>,
+    /// `enabled(meta)` also rejects when `meta.module_path()` is Some and starts with this
+    mod_veto: Option<String>,
+    /// ... or when `meta.file()` is Some and starts with this
+    file_veto: Option<String>,
 }
 impl Filt {
     fn target_ok(&self, t: &str) -> bool {
@@ -128,11 +138,18 @@ impl Filt {
     fn accepts(&self, level: usize, target: &str) -> bool {
         level >= 1 && level <= self.thresh && self.target_ok(target)
     }
+    /// the whole filter, as the collector's `enabled` applies it to a metadata
+    fn accepts_meta(&self, level: usize, target: &str, file: Option<&str>, module: Option<&str>) -> bool {
+        self.accepts(level, target)
+            && !matches!((&self.mod_veto, module), (Some(p), Some(m)) if m.starts_with(p.as_str()))
+            && !matches!((&self.file_veto, file), (Some(p), Some(f)) if f.starts_with(p.as_str()))
+    }
     fn code(&self) -> String {
-        format!("{}|{:?}|{:?}", self.thresh, self.tsel, self.hint)
+        format!("{}|{:?}|{:?}|{:?}|{:?}", self.thresh, self.tsel, self.hint, self.mod_veto, self.file_veto)
     }
     fn js(&self) -> Value {
-        json!({"max_level": self.thresh, "targets": format!("{:?}", self.tsel), "max_level_hint": self.hint})
+        json!({"max_level": self.thresh, "targets": format!("{:?}", self.tsel), "max_level_hint": self.hint,
+               "rejects_module_path_starting_with": self.mod_veto, "rejects_file_starting_with": self.file_veto})
     }
 }
 
@@ -166,7 +183,7 @@ fn gen_filt(rng: &mut Rng) -> Filt {
         4..=6 => Some(thresh),
         _ => Some(thresh + rng.usize(6 - thresh)),
     };
-    Filt { thresh, tsel, hint }
+    Filt { thresh, tsel, hint, mod_veto: None, file_veto: None }
 }
 
 // ------------------------------------------------------------------ recording collector
@@ -228,11 +245,25 @@ impl Visit for FV {
     }
 }
 
+#[derive(Clone, Debug)]
+struct Asked {
+    level: usize,
+    target: String,
+    file: Option<String>,
+    module: Option<String>,
+    answer: bool,
+}
+fn asked_js(a: &[Asked]) -> Value {
+    json!(a
+        .iter()
+        .map(|q| json!({"level": q.level, "target": q.target, "file": q.file, "module_path": q.module, "answered": q.answer}))
+        .collect::<Vec<_>>())
+}
 struct RecCol {
     filt: Filt,
     events: Mutex<Vec<Ev>>,
-    /// (level, target) of the most recent `enabled` queries (bounded)
-    asked: Mutex<Vec<(usize, String)>>,
+    /// the most recent `enabled` queries and the answers given (bounded)
+    asked: Mutex<Vec<Asked>>,
     enabled_calls: AtomicU64,
     other_calls: AtomicU64,
 }
@@ -249,7 +280,7 @@ impl RecCol {
     fn take(&self) -> Vec<Ev> {
         std::mem::take(&mut *self.events.lock().unwrap())
     }
-    fn take_asked(&self) -> Vec<(usize, String)> {
+    fn take_asked(&self) -> Vec<Asked> {
         std::mem::take(&mut *self.asked.lock().unwrap())
     }
 }
@@ -262,13 +293,18 @@ impl Collect for Shared {
     fn enabled(&self, m: &Metadata<'_>) -> bool {
         self.0.enabled_calls.fetch_add(1, Ordering::Relaxed);
         let l = t_rank(m.level());
-        {
-            let mut a = self.0.asked.lock().unwrap();
-            if a.len() < 8 {
-                a.push((l, m.target().to_string()));
-            }
+        let answer = self.0.filt.accepts_meta(l, m.target(), m.file(), m.module_path());
+        let mut a = self.0.asked.lock().unwrap();
+        if a.len() < 8 {
+            a.push(Asked {
+                level: l,
+                target: m.target().to_string(),
+                file: m.file().map(String::from),
+                module: m.module_path().map(String::from),
+                answer,
+            });
         }
-        self.0.filt.accepts(l, m.target())
+        answer
     }
     fn max_level_hint(&self) -> Option<LevelFilter> {
         self.0.filt.hint.map(|h| T_FILTERS[h])
@@ -442,11 +478,12 @@ fn message_of(ev: &Ev) -> Option<String> {
 
 /// compare the events the current collector got (and what stray collectors got) with the
 /// expectation; returns true if a violation was reported
-fn judge_events(out: &mut Out, c: &Case<'_>, got: &[Ev], stray: usize, asked: &[(usize, String)]) -> bool {
+fn judge_events(out: &mut Out, c: &Case<'_>, got: &[Ev], stray: usize, asked: &[Asked], want: usize) -> bool {
     let mut problem: Option<String> = None;
-    let want = c.expect as usize;
     if stray != 0 {
         problem = Some(format!("{stray} event(s) delivered to a collector that is not the thread's current one"));
+    } else if !got.is_empty() && asked.iter().any(|q| !q.answer) {
+        problem = Some(format!("{} event(s) delivered although the collector answered `enabled` = false for this record", got.len()));
     } else if got.len() != want {
         problem = Some(format!(
             "{} event(s) for one log record, expected {} (current collector {} level {} target {:?})",
@@ -498,7 +535,7 @@ fn judge_events(out: &mut Out, c: &Case<'_>, got: &[Ev], stray: usize, asked: &[
                 "expected_events": want,
                 "observed_events": got.iter().map(|e| e.js()).collect::<Vec<_>>(),
                 "events_at_other_collectors": stray,
-                "collector_was_asked_enabled_for": asked.iter().map(|(l, t)| json!({"level": l, "target": t})).collect::<Vec<_>>(),
+                "collector_was_asked_enabled_for": asked_js(&asked),
             }),
         );
         true
@@ -521,6 +558,7 @@ fn tclass(t: &str) -> String {
 
 fn note_case(out: &mut Out, c: &Case<'_>, a2_reason: Option<&str>) {
     out.evals += 1;
+    out.count(if c.route.contains("format_trace") { "records_via_format_trace" } else { "records_via_logger" }, 1);
     out.count(if c.expect { "expected_event" } else { "expected_nothing" }, 1);
     out.count(&format!("records_level_{}", c.rec.level), 1);
     out.count(&format!("records_presence_mask_{}", c.rec.mask()), 1);
@@ -531,14 +569,16 @@ fn note_case(out: &mut Out, c: &Case<'_>, a2_reason: Option<&str>) {
         out.count("own_target_decides", 1);
     }
     if c.part == "A" {
-        if own != synth || partial {
+        if own != synth || partial || a2_reason.is_some() {
             out.distinct_str(&format!(
-                "A|{}|{}|{}|{}|{}",
+                "A|{}|{}|{}|{}|{}|{}|{}",
                 c.scenario,
                 c.filt.map(|f| f.code()).unwrap_or_default(),
                 c.rec.level,
                 tclass(&c.rec.target),
-                c.rec.mask()
+                c.rec.mask(),
+                c.route,
+                a2_reason.unwrap_or("")
             ));
         }
     } else if let Some(reason) = a2_reason {
@@ -558,7 +598,17 @@ fn child_rec(args: &Args) {
 
     for fi in 0..nfilt {
         let mut rng = Rng::derive(args.seed, args.shard, 0xA000 + fi);
-        let filt = gen_filt(&mut rng);
+        let mut filt = gen_filt(&mut rng);
+        // a third of the filters also look at the metadata's module path / file
+        if rng.chance(1, 3) {
+            if rng.chance(2, 3) {
+                filt.mod_veto = Some(rng.pick(&["app", "foo", "", "static_mod", "日本", "db::", "m"]).to_string());
+            }
+            if filt.mod_veto.is_none() || rng.bool() {
+                filt.file_veto = Some(rng.pick(&["src/", "", "/abs", "src/a", "src/static"]).to_string());
+            }
+            out.count("filters_with_module_or_file_veto", 1);
+        }
         out.set("filter_target_kinds", format!("{:?}", filt.tsel).split(['(', ' ']).next().unwrap_or("").to_string());
         let scenario = match rng.weighted(&[6, 2, 2]) {
             0 => "plain",
@@ -577,13 +627,19 @@ fn child_rec(args: &Args) {
             for _ in 0..nrec {
                 let target = gen_target(&mut rng);
                 let rec = gen_rec(&mut rng, target);
+                // verdict on level + target alone (all that `log::Metadata` carries), and on
+                // everything the record has
                 let expect = filt.accepts(rec.level, &rec.target);
+                let full = filt.accepts_meta(rec.level, &rec.target, rec.file.as_deref(), rec.module.as_deref());
+                // `expect && !full`: the collector accepts the record's level and target but
+                // rejects its module path / file.  The documentation does not say with which
+                // metadata the bridge asks, so there only the agreement of the two entry points
+                // is demanded (plus: no event after an `enabled` = false answer).
+                let veto_zone = expect && !full;
                 let config = json!({"other_collector": (scenario != "plain").then(|| other_filt.js())});
-                let case =
-                    Case { part: "A", scenario, filt: Some(&filt), config, rec: &rec, expect, route: "LogTracer::new() driven directly" };
-                note_case(&mut out, &case, None);
                 let en = rec.with(|r| logger.enabled(r.metadata()));
                 let asked_en = col.take_asked();
+                out.evals += 1;
                 if en != expect {
                     out.violation(
                         format!(
@@ -593,22 +649,50 @@ fn child_rec(args: &Args) {
                             rec.target
                         ),
                         json!({"record": rec.js(), "collector_filter": filt.js(), "scenario": scenario, "enabled_returned": en, "expected": expect,
-                               "collector_was_asked_enabled_for": asked_en.iter().map(|(l, t)| json!({"level": l, "target": t})).collect::<Vec<_>>()}),
+                               "collector_was_asked_enabled_for": asked_js(&asked_en)}),
                     );
                 }
-                let stray0 = other.take().len();
-                if stray0 != 0 {
+                if !other.take().is_empty() {
                     panic!("HARNESS: other collector got events outside a step");
                 }
                 let _ = col.take();
-                rec.with(|r| logger.log(r));
-                let got = col.take();
-                let stray = other.take().len();
-                let asked = col.take_asked();
-                out.count("events", got.len() as u64);
-                let bad = judge_events(&mut out, &case, &got, stray, &asked);
-                if !bad && expect && out.samples.len() < 3 {
-                    out.sample(json!({"record": rec.js(), "filter": filt.js(), "event": got[0].js()}));
+                let mut counts = [0usize; 2];
+                for (ri, route) in ["LogTracer::new() driven directly", "tracing_log::format_trace(&record)"].into_iter().enumerate() {
+                    if ri == 0 {
+                        rec.with(|r| logger.log(r));
+                    } else {
+                        let res = rec.with(tracing_log::format_trace);
+                        if res.is_err() {
+                            out.count("format_trace_err", 1);
+                        }
+                    }
+                    let got = col.take();
+                    let stray = other.take().len();
+                    let asked = col.take_asked();
+                    counts[ri] = got.len();
+                    out.count("events", got.len() as u64);
+                    if veto_zone {
+                        out.count("module_or_file_veto_cases", 1);
+                    }
+                    let case = Case { part: "A", scenario, filt: Some(&filt), config: config.clone(), rec: &rec, expect: full, route };
+                    note_case(&mut out, &case, veto_zone.then_some("veto"));
+                    // in the veto zone the count is judged by comparing the two routes below
+                    let want = if veto_zone { got.len().min(1) } else { full as usize };
+                    let bad = judge_events(&mut out, &case, &got, stray, &asked, want);
+                    if !bad && full && out.samples.len() < 3 {
+                        out.sample(json!({"record": rec.js(), "filter": filt.js(), "route": route, "event": got[0].js()}));
+                    }
+                }
+                if counts[0] != counts[1] {
+                    out.violation(
+                        format!(
+                            "log->tracing [A {scenario}]: LogTracer::log produced {} event(s), format_trace {} for the same record under the same collector",
+                            counts[0], counts[1]
+                        ),
+                        json!({"record": rec.js(), "collector_filter": filt.js(), "scenario": scenario,
+                               "collector_accepts_level_and_target": expect, "collector_accepts_full_metadata": full,
+                               "events_via_LogTracer_log": counts[0], "events_via_format_trace": counts[1]}),
+                    );
                 }
             }
         };
@@ -775,7 +859,7 @@ fn child_ignore(args: &Args) {
                             format!("log->tracing [A2 ignore]: log_enabled! returned {en}, expected {expect}"),
                             json!({"record": {"level": rec.level, "target": rec.target}, "configuration": config, "collector_filter": filt.js(),
                                    "target_starts_with_ignored_string": ign, "enabled_returned": en, "expected": expect,
-                                   "collector_was_asked_enabled_for": asked.iter().map(|(l, t)| json!({"level": l, "target": t})).collect::<Vec<_>>()}),
+                                   "collector_was_asked_enabled_for": asked_js(&asked)}),
                         );
                     }
                     if !col.take().is_empty() {
@@ -798,7 +882,7 @@ fn child_ignore(args: &Args) {
                 let got = col.take();
                 let asked = col.take_asked();
                 out.count("events", got.len() as u64);
-                let bad = judge_events(&mut out, &case, &got, 0, &asked);
+                let bad = judge_events(&mut out, &case, &got, 0, &asked, expect as usize);
                 if !bad && ign && out.samples.len() < 2 {
                     out.sample(json!({"ignored_record": rec.js(), "configuration": config, "events": got.len()}));
                 }
@@ -1049,8 +1133,8 @@ fn parent(args: &Args) {
             args,
             t0,
             rule: "evaluations = log records judged (parts A, A2) + span/event steps judged (part B) + level-table cells (C). \
-                   distinct non-trivial = distinct (filter, scenario, level, target, presence mask of file/line/module, route) tuples among \
-                   part-A records for which the collector's verdict on the record's own target differs from its verdict on the bridge's \
+                   distinct non-trivial = distinct (filter, scenario, level, target, presence mask of file/line/module, door) tuples among \
+                   part-A records (each judged once per door: LogTracer::log, format_trace) whose module path / file the collector vetoes or for which the collector's verdict on the record's own target differs from its verdict on the bridge's \
                    synthetic target \"log\" or that were accepted with only some of file/line/module present (generated Unicode targets enter by class); \
                    (configuration, level, target, route, reason) tuples among part-A2 records the collector accepts and whose fate the configuration \
                    decides: target starts with an ignored string / level above with_max_level / target shares a leading char with an ignored string \
